@@ -251,6 +251,22 @@ def keysOf (k : Kind) : Nat → List PSnap → List Int
   | _, [] => []
   | nr, s :: rest => bucketKey k s.civ nr :: keysOf k (nr + 1) rest
 
+/-- the period of a time as the documentation defines it — YYYYMMDDHH, YYYYMMDD, ISO year and
+    week YYYYWW, YYYYMM, YYYY — written down independently of the key functions of the source
+    (`bucketKey` uses the regenerated coefficients; `Props/C22.bucketKey_eq_periodKey` proves that
+    they currently agree) -/
+def periodKey : Kind → Civil → Nat → Int
+  | .last, _, nr => nr
+  | .hourly, c, _ => c.year * 1000000 + c.month * 10000 + c.day * 100 + c.hour
+  | .daily, c, _ => c.year * 10000 + c.month * 100 + c.day
+  | .weekly, c, _ => c.isoYear * 100 + c.isoWeek
+  | .monthly, c, _ => c.year * 100 + c.month
+  | .yearly, c, _ => c.year
+
+def pkeysOf (k : Kind) : Nat → List PSnap → List Int
+  | _, [] => []
+  | nr, s :: rest => periodKey k s.civ nr :: pkeysOf k (nr + 1) rest
+
 /-- number of "period changes" in a key sequence that starts after key `prev` -/
 def runHeads : Int → List Int → Nat
   | _, [] => 0
@@ -283,9 +299,9 @@ def countRuleRuns (k : Kind) (n : Int) (pre : List PSnap) (s : PSnap) (isLast : 
 /-- counting rule as documented: `s` is the newest snapshot of its period (or the oldest snapshot
     of all) and fewer than `n` periods are more recent -/
 def countRulePeriods (k : Kind) (n : Int) (pre : List PSnap) (s : PSnap) (isLast : Bool) : Bool :=
-  let ks := keysOf k 0 pre
+  let ks := pkeysOf k 0 pre
   (n == -1 || decide ((distinct ks : Int) < n)) &&
-  (!ks.contains (bucketKey k s.civ pre.length) || isLast)
+  (!ks.contains (periodKey k s.civ pre.length) || isLast)
 
 /-- `keep-within-<kind> d` for any key sequence -/
 def withinRuleRuns (ctx : Ctx) (k : Kind) (pre : List PSnap) (s : PSnap) (isLast : Bool) : Bool :=
@@ -297,7 +313,7 @@ def withinRuleRuns (ctx : Ctx) (k : Kind) (pre : List PSnap) (s : PSnap) (isLast
 def withinRulePeriods (ctx : Ctx) (k : Kind) (pre : List PSnap) (s : PSnap) (isLast : Bool) : Bool :=
   let d := ctx.p.withinOf k
   !d.zero && decide (s.time > ctx.sub ctx.latest d) &&
-  (!(keysOf k 0 pre).contains (bucketKey k s.civ pre.length) || isLast)
+  (!(pkeysOf k 0 pre).contains (periodKey k s.civ pre.length) || isLast)
 
 def tagRule (p : Policy) (s : PSnap) : Bool := p.tags.any fun l => hasTags s.sn l
 
@@ -324,7 +340,7 @@ def flagsFrom (kept : List PSnap → PSnap → Bool → Bool) : List PSnap → L
 
 /-- every period key of the list is usable: not the sentinel -1 and non-increasing -/
 def keysRegular (l : List PSnap) : Bool :=
-  withinKinds.all fun k => let ks := keysOf k 0 l; antitone ks && !ks.contains (-1)
+  withinKinds.all fun k => let ks := pkeysOf k 0 l; antitone ks && !ks.contains (-1)
 
 /-- **C22 as a predicate on observed behaviour**: given the input list, the policy, the oracles and
     what the implementation returned (ids of `keep` and `remove` in order, number of reasons per
